@@ -29,10 +29,13 @@ func (monC08) AtState(x *Exec) {
 		return v
 	}
 	if from != to {
-		h := NewHist(x, 0)
+		// In a restarted process (crash layer) the same rules hold for what this process does; only the attempt
+		// arithmetic is skipped, because the stored attempts then include those of the previous life.
+		gen := w.Gen
+		h := NewHist(x, gen)
 		for k := from; k < to; k++ {
 			e := &h.Events[k]
-			if e.Kind != "INV" || e.Gen != 0 {
+			if e.Kind != "INV" || e.Gen != gen {
 				continue
 			}
 			oi := w.Objs[e.Path]
@@ -53,7 +56,9 @@ func (monC08) AtState(x *Exec) {
 					Msg: fmt.Sprintf("invocation #%d of %s: the stored action is %s, not Running", e.N, e.Path, st.Status)})
 			}
 			if isSeqAction(oi) {
-				if len(st.Att) != e.N {
+				if gen > 0 {
+					// nothing to compare the count with
+				} else if len(st.Att) != e.N {
 					x.Report(&Violation{Property: "C08", Rule: "attempt-not-durable-before-next-attempt", Signature: "attempts",
 						Msg: fmt.Sprintf("invocation #%d of %s began with %d attempts in storage (want %d)", e.N, e.Path, len(st.Att), e.N)})
 				} else if e.N > 0 {
@@ -75,7 +80,7 @@ func (monC08) AtState(x *Exec) {
 							Msg: fmt.Sprintf("%s was invoked while the stored previous action %s is %s with %d attempts", e.Path, pp, ps.Status, len(ps.Att))})
 					}
 				}
-			} else if oi.Act != nil && oi.Act.Retries == 0 && len(st.Att) != 0 {
+			} else if gen == 0 && oi.Act != nil && oi.Act.Retries == 0 && len(st.Att) != 0 {
 				x.Report(&Violation{Property: "C08", Rule: "check-action-attempts-not-reset", Signature: "attempts",
 					Msg: fmt.Sprintf("check action %s was invoked with %d stale attempts in storage", e.Path, len(st.Att))})
 			}
@@ -102,6 +107,12 @@ func (monC08) AtState(x *Exec) {
 			continue
 		}
 		planPath := fmt.Sprintf("P%d", cur.Plan)
+		if _, rec := recoveryMode(x); rec {
+			// a restarted process only owes a terminal state to the waiters of plans it resumed
+			if cv := crashView(x, cur.Plan); cv == nil || cv.Objs[planPath] == nil || cv.Objs[planPath].Status != workflow.Running {
+				continue
+			}
+		}
 		if ps := v.Objs[planPath]; ps != nil && !terminal(ps.Status) {
 			x.Report(&Violation{Property: "C08", Rule: "waiter-released-before-terminal-state-durable", Signature: "waiter",
 				Msg: fmt.Sprintf("the waiter of %s was released while the stored plan is %s", planPath, ps.Status)})
@@ -163,7 +174,7 @@ func init() {
 	register(&PropDef{
 		ID:    "C08",
 		Level: "model_checking",
-		Rule: "families F-seq, F-chk, F-sharp and sequences with retried actions (F-retryseq); every order of visible operations within the deviation bound; the real vault is read directly at every quiescent state " +
+		Rule: "families F-seq, F-chk, F-sharp, sequences with retried actions (F-retryseq), minimal F-cont and the crash layer (each durable state of crash scenarios restarted: the restarted process obeys the same rules); every order of visible operations within the deviation bound; the real vault is read directly at every quiescent state " +
 			"(the finest possible polling history: any real poller sees a subsequence): at each plugin invocation the stored action must be Running with exactly the previous attempts, the previous action durably Completed, " +
 			"the plan terminal when the waiter is released, and no block/sequence/sequence-action status once read as Completed/Failed reads differently later; " +
 			"distinct_nontrivial = distinct states in which two or more logical threads were enabled",
@@ -187,6 +198,17 @@ func init() {
 			for _, sc := range FamilySharp(tier) {
 				items = append(items, explore("C08", sc, b, true))
 			}
+			// the same in a restarted process: every durable state of crash scenarios is restarted; what the new process
+			// invokes is durably Running first, and its waiters are released only when nothing is stored Running
+			var crash []*Scenario
+			for _, sc := range FamilyCrash(tier) {
+				n := sc.Name
+				if strings.HasPrefix(n, "crash-b2-n2-a2-c2-") || strings.HasPrefix(n, "crash-b2-n1-") || strings.HasPrefix(n, "crash-chk-") || strings.HasPrefix(n, "crash-2fail-t0") ||
+					strings.HasSuffix(n, "-def") || n == "crash-all-groups" || n == "crash-retry-t-ok" || tier == "thorough" {
+					crash = append(crash, sc)
+				}
+			}
+			items = append(items, crashItems("C08", tier, crash)...)
 			// a continuous-check run in flight when its scope fails by another route: the terminal state must still
 			// be the last thing written before the waiter is released
 			for _, sc := range FamilyCont(tier) {
